@@ -44,22 +44,22 @@ CLAIMS = {
         level="proof", design="DESIGN.md section 3, C04",
         technique="Lean 4 proofs about the shared one-step model Sympler/Dyn.lean (pair kernel with acts-on guards, own cutoff, symmetry factor): reciprocity, free-only, own cutoff, momentum invariance for every step count; correspondence of both force buffers of every particle with the real binary after every step in the exact-arithmetic regime; momentum oracle on the real runs",
         text="C04_reciprocal(_op): the contribution to the second partner is symmetry * (factor_j o F) and equals minus the first under the symmetry premise; C04_free_only: nothing is accumulated on a frozen particle; C04_own_cutoff(_exact): a module contributes iff the pair is inside ITS cutoff even when the list cutoff is larger; C04_momentum: with reciprocal pair forces, all free, fully periodic, total momentum is invariant under step for all step counts. Real force buffers equal the model's exactly on every explored scenario.",
-        note=BASE_NOTE + "Hand-written model of the kernel shape shared by FPairVels/FPairScalar/FPairVector; the tie is the correspondence. DPD/LJ/thermostat kernels (sqrt, random numbers) are not instantiated by scenarios. Neighbour relation in this model is the brute-force set (C01/C02 connect it to the lists)."),
+        note=BASE_NOTE + "The model is hand-written; translate/t_dyn.py regenerates the kernels (increments, guards, own-cutoff test) of FPairVels/FPairScalar/FPairVector/PairParticleScalar/PairParticleVector from the source and Props/DynBridge.lean proves them equal to the model's (Bridge_pair_*); plus the exact correspondence. DPD/LJ/thermostat kernels (sqrt, random numbers) are not instantiated by scenarios. Neighbour relation in this model is the brute-force set (C01/C02 connect it to the lists)."),
     "C05": dict(
         level="proof", design="DESIGN.md section 3, C05 (PARTIAL: order of convergence)",
         technique="Lean 4 proofs about the shared one-step model (Controller::integrate order, two force buffers with index flip, protect/unprotect of tag forces, clear of non-persistent data, velocity-Verlet with lambda, Euler integrators): force freshness by induction over steps, textbook velocity-Verlet map, lambda independence, exact reversibility, exact constant-acceleration and constant-rate solutions; exact correspondence of r, v, forces, integrated quantities with the real binary; analytic / metamorphic oracles",
         text="C05_force_fresh(_run): after every step the current force buffer holds each registered force exactly once, evaluated on the updated state, nothing surviving from earlier steps; C05_vv_textbook / lambda_independent / vv_reversible / vv_const_accel / const_forces / euler_const_rate as named. PARTIAL: second-order convergence is the classical theorem about the textbook map to which C05_vv_textbook reduces the code; it is not proved in Lean.",
-        note=BASE_NOTE + "Hand-written model; the tie is the exact correspondence. Walls are excluded here (C08). Beyond the exact horizon states are compared approximately and never counted."),
+        note=BASE_NOTE + "The model is hand-written; the velocity-Verlet / Euler kernels and the call order of Controller::integrate are regenerated by translate/t_dyn.py and proved equal to the model's (Bridge_vv_step1/2, Bridge_euler_step1, Bridge_step_order); plus the exact correspondence; IntegratorScalarLambda is covered by an implementation-side oracle only. Walls are excluded here (C08). Beyond the exact horizon states are compared approximately and never counted."),
     "C07": dict(
         level="proof", design="DESIGN.md section 3, C07",
         technique="Lean 4 proofs about the shared one-step model: a pair-summed symbol equals the sum over all partners (free or frozen) inside the module's own cutoff at the current minimum-image positions, independent of its previous value; exact correspondence of every symbol with the real binary after every step; brute-force re-summation oracle",
         text="C07_sum / C07_current_positions / C07_memoryless / C07_own_cutoff for every module list of the modelled kinds; real values equal the model's exactly on every explored scenario (several calculators with different cutoffs sharing one list, free/frozen partners, several steps).",
-        note=BASE_NOTE + "Hand-written model; the tie is the correspondence. ValCalculatorRho with kernels (sqrt) is not instantiated. The list is the brute-force set in this model (C01/C02)."),
+        note=BASE_NOTE + "Hand-written model tied by the regenerated pair-sum kernels (translate/t_dyn.py + Bridge_pair_* theorems) and the exact correspondence (incl. allPairs). ValCalculatorRho with kernels (sqrt) is not instantiated. The list is the brute-force set in this model (C01/C02)."),
     "C10": dict(
         level="proof", design="DESIGN.md section 3, C10",
         technique="Lean 4 proofs about the shared one-step model: step leaves position, velocity, colour, flag and every tag attribute of every frozen particle unchanged and their number constant, for every module list of the modelled kinds; frozen partners do contribute to free particles; exact correspondence of every field of every frozen particle; snapshot oracle on the real runs",
         text="C10_frozen_fixed, C10_frozen_count, C10_felt; on the real binary every frozen particle is bit-identical to its initial state after every step of every explored scenario while contributing to the sums and forces of free partners.",
-        note=BASE_NOTE + "Force accumulators are scratch storage outside the property's state (ConnectBasic writes both bond partners unguarded; recorded in DESIGN.md). Module kinds not instantiated by the scenarios are not covered."),
+        note=BASE_NOTE + "The guards of the modelled pair modules are regenerated from the source (Bridge_pair_guards). Force accumulators are scratch storage outside the property's state (ConnectBasic writes both bond partners unguarded; recorded in DESIGN.md). Module kinds not instantiated by the scenarios are not covered."),
     "C18": dict(
         level="proof", design="DESIGN.md section 3, C18 (PARTIAL: decimal rounding)",
         technique="Lean 4 proofs about a token-level model of Phase::writeRestartFile and ParticleCreatorFile (readNext with the character class regenerated from pc_file.cpp, %g formatting on the exact domain, header/column mapping): tokens never split, exact-domain round trip is the identity, columns restore every persistent attribute to the right particle; correspondence of the real file text and of the system the real reader holds with the model; write/read oracle A vs B",
